@@ -910,6 +910,35 @@ func endToEnd(c *vf.Ctx) {
 			return
 		}
 		judgeAuthenticate(t.check2, "C08/AuthContext.ProcessChallengeToken/authenticate", info.Token, in, desc)
+		// call history on ONE context: an earlier, different challenge (other flags, other server challenge)
+		// must leave no trace — the answer to THIS challenge is judged exactly like the fresh-context answer
+		if i%3 == 0 {
+			prev := &rn.Challenge{Flags: flagCombo((i*7 + 21) % 64), ServerChallenge: [8]byte{1, 2, 3, 4, 5, 6, 7, 8}}
+			if prev.Flags&rn.FlagTargetInfo != 0 {
+				prev.TargetInfo = sampleTargetInfo()
+			}
+			if prev.Flags&rn.FlagVersion != 0 {
+				prev.Version = [8]byte{6, 1, 0xb1, 0x1d, 0, 0, 0, 15}
+			}
+			ctx2 := spnego.NewAuthContext(spnego.AuthTypeNTLM, in.d, in.user, in.pw, in.w, true)
+			var out2 []byte
+			var err2 error
+			desc2 := func() string {
+				return desc() + fmt.Sprintf(" AFTER the same context had processed CHALLENGE %s", vf.HexS(rn.EncodeChallenge(prev)))
+			}
+			if call(t, "spnego.AuthContext.ProcessChallengeToken(second)", desc2, func() {
+				ctx2.ProcessChallengeToken(rn.WrapRespLib(1, true, rn.EncodeChallenge(prev)))
+				out2, err2 = ctx2.ProcessChallengeToken(append([]byte{}, frame...))
+			}) && t.check("C08/AuthContext.history/second-challenge-accepted", err2 == nil, func() string { return fmt.Sprintf("%s: %v", desc2(), err2) }) {
+				cm2 := ctx2.NTLMChallenge
+				t.check("C08/AuthContext.history/stores-the-latest-challenge", cm2 != nil && cm2.NegotiateFlags == spec.Flags && cm2.ServerChallenge == spec.ServerChallenge && bytes.Equal(cm2.TargetName, spec.TargetName) && bytes.Equal(cm2.TargetInfo, spec.TargetInfo), func() string {
+					return fmt.Sprintf("%s: ctx.NTLMChallenge = %+v", desc2(), cm2)
+				})
+				if info2, rerr2 := rn.ReadSpnego(out2); t.check("C08/AuthContext.history/frame-readable", rerr2 == nil && info2.HasToken, func() string { return fmt.Sprintf("%s = %s: %v", desc2(), vf.HexS(out2), rerr2) }) {
+					judgeAuthenticate(t.check2, "C08/AuthContext.history/authenticate-answers-the-latest-challenge", info2.Token, in, desc2)
+				}
+			}
+		}
 	})
 	c.Sample("end-to-end", map[string]any{"challenge_flags": fmt.Sprintf("%#x", flagCombo(0b011101)), "frame": hex.EncodeToString(rn.WrapRespLib(1, true, []byte("NTLMSSP\x00…")))[:40] + "…"})
 }
